@@ -70,6 +70,14 @@ def scenario_for(alpha_kind, shape, scale_axis=None, bounds_po2=False):
     s.vars["x"] = xe
     s.replay = {"class": "quantized_bits", "kwargs": {"alpha": kw["alpha"], "scale_axis": scale_axis},
                 "shape": list(shape), "bounds_po2": bounds_po2, "frozen": alpha_kind == "frozen"}
+    if alpha_kind in ("auto", "auto_po2") and not bounds_po2 and len(shape) > 1:
+      # IEEE non-finite values are outside the real-arithmetic VCs: bounded native probe (never counted as proved)
+      nk = {"alpha": alpha_kind}
+      if scale_axis is not None:
+        nk["scale_axis"] = scale_axis
+      s.info["native_probes"] = [{"clause": "finite_outputs", "kind": "c05_finite",
+                                  "witness": {"class": "quantized_bits", "kwargs": nk, "shape": list(shape)},
+                                  "bound": "native run on zeros / an all-zero channel / magnitudes 1e-6..1e6, bits in {2,3,4,8}, integer in {0,1,3}"}]
     # spy on tf.where: the last call in __call__ produces the magnitude of the emitted code
     wheres = []
     orig = L.TABLE["tf.where"]
@@ -85,12 +93,22 @@ def scenario_for(alpha_kind, shape, scale_axis=None, bounds_po2=False):
       out = orig_pow.fn(ip_, *a, **k)
       pows.append((out, a))
       return out
+    # the clip of the code magnitude may equally be written tf.minimum(v, top): both forms are recorded as (result, (mask, v, top))
+    orig_min = L.TABLE["tf.minimum"]
+
+    def spy_min(ip_, *a, **k):
+      out = orig_min.fn(ip_, *a, **k)
+      if len(a) == 2:
+        wheres.append((out, (None, a[0], a[1])))
+      return out
     L.TABLE["tf.where"] = Builtin("tf.where", spy)
+    L.TABLE["tf.minimum"] = Builtin("tf.minimum", spy_min)
     L.TABLE["K.pow"] = Builtin("K.pow", spy_pow)
     try:
       r = Q.call(ip, q, x)
     finally:
       L.TABLE["tf.where"] = orig
+      L.TABLE["tf.minimum"] = orig_min
       L.TABLE["K.pow"] = orig_pow
     s.claim("no_raise", r[0] == "return")
     if r[0] != "return":
@@ -120,7 +138,7 @@ def scenario_for(alpha_kind, shape, scale_axis=None, bounds_po2=False):
     sgn = z3.If(xe > 0, z3.RealVal(1), z3.If(xe < 0, z3.RealVal(-1), z3.RealVal(0)))
     if not wheres or not isinstance(wheres[-1][0], SNum) or len(wheres[-1][1]) != 3:
       s.claim("form", False)
-      s.info["raised"] = "no code magnitude produced by tf.where(mask, v, top)"
+      s.info["raised"] = "no code magnitude produced by tf.where(mask, v, top) / tf.minimum(v, top)"
       return s
     mag = R(wheres[-1][0].e)
     _, vv, tt = wheres[-1][1]
@@ -195,6 +213,13 @@ def linear_scenario(shape, scale_axis=None):
     s.vars["x"] = xe
     s.replay = {"class": "quantized_linear", "kwargs": {"alpha": "auto", "scale_axis": scale_axis}, "shape": list(shape),
                 "bounds_po2": False, "frozen": False}
+    if len(shape) > 1:
+      nk = {"alpha": "auto"}
+      if scale_axis is not None:
+        nk["scale_axis"] = scale_axis
+      s.info["native_probes"] = [{"clause": "finite_outputs", "kind": "c05_finite",
+                                  "witness": {"class": "quantized_linear", "kwargs": nk, "shape": list(shape)},
+                                  "bound": "native run on zeros / an all-zero channel / magnitudes 1e-6..1e6, bits in {2,3,4,8}, integer in {0,1,3}"}]
     r = Q.call(ip, q, x)
     s.claim("no_raise", r[0] == "return")
     if r[0] != "return":
